@@ -13,6 +13,7 @@ CLAIMED = {
     "C01": ("Every operand tuple of the stated alphabets (all 8-bit pairs, 16-bit ALL16 x lattice, 32/64-bit lattice^2, ternary lattices), at every lane offset, on each of the 22 executable architectures is executed by the real kernel and compared lane-exactly with an __int128 reference model; exhaustive within that bound (thorough: all 2^32 16-bit pairs).", "6 C01", "xvdrive"),
     "C02": ("Every point of the IEEE lattices (specials, every binade x structured mantissas, seed patterns; thorough: all 2^32 float32 patterns for unary operations), pairs and triples of lattice values, at every lane offset and on each architecture, compared bit-for-bit with the scalar SSE2 IEEE operation / glibc (fused-or-unfused latitude for the fma family, either operand for equal min/max operands).", "6 C02", "xvdrive"),
     "C03": ("All comparison outcomes on the C01/C02 pair spaces; every 16-bit mask value, all pairs of 8-bit masks and 16-bit x special pairs through five provenance/observation pairs (depth-2 chaining) against the n-bit integer model of a mask; select with tagged operands; on each architecture.", "6 C03", "xvdrive"),
+    "C05": ("Every generated compile-time mask program (about 150-360 swizzle and 150-290 shuffle instantiations per lane count, thorough 640-1030), every slide/rotate/extract/insert count, every run-time index vector of the stated families (all n^n for n <= 4, thorough n <= 8) and every compress/expand mask (all 2^n for n <= 16) is executed on byte-tagged batches on each architecture and compared bit-exactly with the index-level definition; acceptance per (architecture, type) decided by trial compilation.", "6 C05", "xvdrive"),
     "C06": ("Every representable source value of the stated alphabets (8/16-bit exhaustive, 32-bit lattice + strided sweep, thorough all 2^32; 64-bit lattices with every rounding-regime boundary and half-way case) for every (From,To) pair of batch_cast/load_as/store_as/broadcast_as/to_int/to_float, and byte-exact bitwise_cast between all pairs, on each architecture against static_cast in a strict IEEE translation unit.", "6 C06", "xvdrive"),
     "C09": ("Lane-aware witness placement: a distinguished addend/extreme at every lane and every lane pair over several backgrounds, plus the full lattice through every lane, for every batch size 2..64 and each architecture; a skipped lane gives 0, a doubled lane gives 2; float sums exact where representable, otherwise within the (n-1)-rounding bound; generic reduce(f) wherever the library accepts it (decided by trial compilation).", "6 C09", "xvdrive"),
     "C07": ("Every lane value (8/16-bit exhaustive) x every shift/rotate count in [0,bits), scalar- and per-lane-count forms, at every lane offset and on each of the 22 architectures, compared lane-exactly with an unsigned-word reference model.", "6 C07", "xvdrive"),
